@@ -18,7 +18,8 @@ import json, os, random, re, shutil, subprocess, sys, time
 MUT = "/tmp/mut"
 REPO = f"{MUT}/repo"
 VERIF = f"{MUT}/verif"
-ENV = dict(os.environ, CARGO_NET_OFFLINE="true", JBKV_VERIF_DIR=VERIF, JBKV_QUIET_PANICS="1")
+ENV = dict(os.environ, CARGO_NET_OFFLINE="true", JBKV_VERIF_DIR=VERIF, JBKV_QUIET_PANICS="1",
+           JBKV_SCRATCH="/dev/shm/mutsweep")
 ENV.setdefault("VERIF_SEED", "1")
 # cheapest first (quick tier wall time on this machine)
 COST = {"C13": 3, "C03": 4, "C02": 6, "C15": 6, "C12": 6, "C14": 8, "C16": 8, "C11": 8, "C10": 9, "C01": 10,
@@ -203,6 +204,14 @@ def run(args):
                                  env=dict(os.environ, CARGO_NET_OFFLINE="true"))
                 except subprocess.TimeoutExpired:
                     rc, out = 1, "timeout"
+                if rc != 0 and "timeout" != out:
+                    # the suite's integration tests use fixed /tmp paths: another suite run on this machine
+                    # can make them fail spuriously, so a failure counts only when it repeats
+                    try:
+                        rc, out = sh("cargo test --workspace --no-fail-fast --offline", cwd=REPO, timeout=900,
+                                     env=dict(os.environ, CARGO_NET_OFFLINE="true"))
+                    except subprocess.TimeoutExpired:
+                        rc, out = 1, "timeout"
                 if rc != 0:
                     rec["status"] = "suite"
                 else:
@@ -228,7 +237,7 @@ def run(args):
                                 break
         finally:
             open(path, "w").write(orig)
-            sh(f"rm -rf /dev/shm/jbkv-* {VERIF}/replays/*")
+            sh(f"rm -rf /dev/shm/mutsweep/* {VERIF}/replays/*")
         rec["secs"] = round(time.time() - t0, 1)
         with open(outp, "a") as o:
             o.write(json.dumps(rec) + "\n")
